@@ -17,7 +17,11 @@ use std::panic::{catch_unwind, AssertUnwindSafe};
 
 fn ins(opc: u8, dst: u8, src: u8, off: i16, imm: i32) -> Insn { Insn { opc, dst, src, off, imm } }
 
+#[derive(Clone, Copy, PartialEq, Eq, Debug)]
+pub enum Engine { Interp, Jit, Clif }
+
 pub struct Wit {
+    pub engine: Engine,
     pub insn: SInsn,
     pub next_imm: i32,
     pub reg: [u64; 11],
@@ -57,7 +61,23 @@ fn overlaps(a: (usize, usize), b: (usize, usize)) -> bool { a.0 < b.1 && b.0 < a
 pub struct Built { pub prog: Vec<u8>, pub p: usize, pub f: usize, pub t: Option<usize>, pub n: usize }
 
 /// place code so that the instruction sits at slot `p`
-fn build(w: &Wit, p: usize, regs: &[u64; 10], report: u64) -> Result<Built, String> {
+/// what the two continuation blocks do: store everything into the report buffer (interpreter: registered
+/// memory), or - for the compiled engines, which know no registered memory - return a tag / one register
+#[derive(Clone, Copy)]
+pub enum Obs { Report(u64), Tag, Reg(u8) }
+
+fn obs_small(o: Obs, tag: i32) -> Vec<Insn> {
+    let mut v = match o {
+        Obs::Tag => vec![ins(ebpf::MOV64_IMM, 0, 0, 0, tag)],
+        Obs::Reg(k) => vec![ins(ebpf::MOV64_REG, 0, k, 0, 0)],
+        Obs::Report(_) => unreachable!(),
+    };
+    v.push(ins(ebpf::EXIT, 0, 0, 0, 0));
+    while v.len() < OBS_LEN { v.push(ins(ebpf::EXIT, 0, 0, 0, 0)); }
+    v
+}
+
+fn build(w: &Wit, p: usize, regs: &[u64; 10], obs: Obs) -> Result<Built, String> {
     let i = w.insn;
     let is_lddw = i.opc == OP_LDDW;
     let f = p + if is_lddw { 2 } else { 1 };
@@ -84,8 +104,10 @@ fn build(w: &Wit, p: usize, regs: &[u64; 10], report: u64) -> Result<Built, Stri
     };
     put(&mut slots, p, &[ins(i.opc, i.dst, i.src, i.off, i.imm)])?;
     if is_lddw { put(&mut slots, p + 1, &[ins(0, 0, 0, 0, w.next_imm)])?; }
-    put(&mut slots, obs1, &obs_block(report, 1))?;
-    put(&mut slots, obs2, &obs_block(report, 2))?;
+    match obs {
+        Obs::Report(report) => { put(&mut slots, obs1, &obs_block(report, 1))?; put(&mut slots, obs2, &obs_block(report, 2))?; }
+        o => { put(&mut slots, obs1, &obs_small(o, 1))?; put(&mut slots, obs2, &obs_small(o, 2))?; }
+    }
     let mut pv = vec![];
     for k in 0..10u8 {
         pv.push(ins(ebpf::LD_DW_IMM, k, 0, 0, regs[k as usize] as u32 as i32));
@@ -129,6 +151,7 @@ fn build(w: &Wit, p: usize, regs: &[u64; 10], report: u64) -> Result<Built, Stri
 pub enum RealOut { Observed { tag: u64, regs: [u64; 11] }, Err, Panic, Rejected, Other(u64) }
 
 pub fn replay(w: &Wit) -> String {
+    if w.engine != Engine::Interp { return replay_compiled(w); }
     // the call depth of the witness is irrelevant for instructions other than call/exit: replayed at depth 0
     if w.insn.opc == OP_CALL || w.insn.opc == OP_EXIT { return "NOT-REPLAYABLE call/exit witnesses are replayed by the finding programs".into(); }
     // real buffers: same sizes as in the witness (capped), pointer-valued registers are re-based
@@ -155,7 +178,7 @@ pub fn replay(w: &Wit) -> String {
     if w.pc > 64 { attempts.push(w.pc); }
     let mut last = String::from("NOT-REPRODUCED");
     for p in attempts {
-        let b = match build(w, p, &regs, report_addr) { Ok(b) => b, Err(e) => { last = format!("NOT-REPLAYABLE {}", e); continue; } };
+        let b = match build(w, p, &regs, Obs::Report(report_addr)) { Ok(b) => b, Err(e) => { last = format!("NOT-REPLAYABLE {}", e); continue; } };
         let out = {
             let mut vm = match rbpf::EbpfVmMbuff::new(Some(&b.prog)) { Ok(v) => v, Err(e) => { last = format!("NOT-REPLAYABLE the verifier refuses the witness program: {}", e); continue; } };
             vm.register_allowed_memory(report_addr..report_addr + 96);
@@ -221,6 +244,107 @@ pub fn replay(w: &Wit) -> String {
     last
 }
 
+/// One run of a witness program on a compiled engine.  A trap / wild access kills the process: the caller
+/// (main.rs) runs this in a child process and reads the protocol lines printed (and flushed) before each run.
+fn run_compiled(engine: Engine, prog: &[u8], mem: &mut Vec<u8>, mbuff: &mut Vec<u8>, fill: u64) -> Result<u64, String> {
+    for (k, b) in mem.iter_mut().enumerate() { *b = (fill >> (8 * (k % 8))) as u8; }
+    for (k, b) in mbuff.iter_mut().enumerate() { *b = (fill >> (8 * (k % 8))) as u8; }
+    let mem_s: &mut [u8] = unsafe { std::slice::from_raw_parts_mut(mem.as_mut_ptr(), mem.len()) };
+    let mbuff_s: &mut [u8] = unsafe { std::slice::from_raw_parts_mut(mbuff.as_mut_ptr(), mbuff.len()) };
+    let mut vm = rbpf::EbpfVmMbuff::new(Some(prog)).map_err(|e| format!("verifier: {}", e))?;
+    match engine {
+        Engine::Jit => { vm.jit_compile().map_err(|e| format!("jit_compile: {}", e))?; unsafe { vm.execute_program_jit(mem_s, mbuff_s) }.map_err(|e| format!("execute: {}", e)) }
+        Engine::Clif => { vm.cranelift_compile().map_err(|e| format!("cranelift_compile: {}", e))?; vm.execute_program_cranelift(mem_s, mbuff_s).map_err(|e| format!("execute: {}", e)) }
+        Engine::Interp => vm.execute_program(mem_s, mbuff_s).map_err(|e| format!("execute: {}", e)),
+    }
+}
+
+fn say(line: &str) {
+    use std::io::Write;
+    println!("{}", line);
+    let _ = std::io::stdout().flush();
+}
+
+/// Compiled engines (x86-64 JIT, Cranelift): the witness program is run once per observed quantity
+/// (landing block, r10, r0..r9), buffers refilled before every run, and compared with spec_step.
+pub fn replay_compiled(w: &Wit) -> String {
+    if w.insn.opc == OP_CALL || w.insn.opc == OP_EXIT { return "NOT-REPLAYABLE call/exit witnesses are replayed by the finding programs".into(); }
+    let mem_len = w.mem.1.min(4096) as usize;
+    let mbuff_len = w.mbuff.1.min(4096) as usize;
+    let mut mem = vec![0u8; mem_len];
+    let mut mbuff = vec![0u8; mbuff_len];
+    let (mem_base, mbuff_base) = (mem.as_ptr() as u64, mbuff.as_ptr() as u64);
+    let near = |v: u64, base: u64, len: u64| -> Option<i128> { let d = v as i128 - base as i128; if d >= -64 && d <= len as i128 + 64 { Some(d) } else { None } };
+    let rebase = |v: u64| -> u64 {
+        if let Some(d) = near(v, w.mem.0, w.mem.1) { if w.mem.1 > 0 { return (mem_base as i128 + d) as u64; } }
+        if let Some(d) = near(v, w.mbuff.0, w.mbuff.1) { if w.mbuff.1 > 0 { return (mbuff_base as i128 + d) as u64; } }
+        v
+    };
+    let mut regs = [0u64; 10];
+    for k in 0..10 { regs[k] = rebase(w.reg[k]); }
+    let stack_rel = (0..10).any(|k| near(w.reg[k], w.stack.0, w.stack.1).is_some()) || w.insn.dst == 10 || w.insn.src == 10;
+    let p = if w.pc > 64 { w.pc } else { 64 };
+    let mk = |o: Obs| build(w, p, &regs, o);
+    let b0 = match mk(Obs::Tag) { Ok(b) => b, Err(e) => return format!("NOT-REPLAYABLE {}", e) };
+    // what the ISA prescribes when the stack is not involved (known before the first run, in case the run dies)
+    let lay0 = SLayout { mbuff: SRegion { base: mbuff_base, len: mbuff_len as u64 }, mem: SRegion { base: mem_base, len: mem_len as u64 }, stack: SRegion { base: 0, len: 0 }, allowed: None };
+    let mut pre = SState { reg: [0; 11], pc: b0.p, depth: 0, frames: [SFrame { ret: 0, saved: [0; 4], usage: 256 }; 8] };
+    for k in 0..10 { pre.reg[k] = regs[k]; }
+    let o0 = SOracle { load_data: 0, helper_present: false, helper_ret: 0, entry_usage: None, next_imm: w.next_imm };
+    let want_pre = spec_step(&pre, w.insn, &lay0, &o0);
+    say(if stack_rel { "EXPECT-UNKNOWN" } else if want_pre.kind == SKind::Err { "EXPECT-ERR" } else { "EXPECT-OK" });
+    // r10 as the engine sets it
+    say("RUN r10");
+    let b10 = match mk(Obs::Reg(10)) { Ok(b) => b, Err(e) => return format!("NOT-REPLAYABLE {}", e) };
+    let r10 = if stack_rel { match run_compiled(w.engine, &b10.prog, &mut mem, &mut mbuff, w.load_data) { Ok(v) => v, Err(e) => return format!("NOT-REPLAYABLE {}", e) } } else { 0 };
+    pre.reg[10] = r10;
+    let lay = SLayout { stack: SRegion { base: r10.wrapping_sub(512), len: if stack_rel { 512 } else { 0 } }, ..lay0 };
+    // refill as run_compiled will, so that a load sees what the spec is told it sees
+    for (k, b) in mem.iter_mut().enumerate() { *b = (w.load_data >> (8 * (k % 8))) as u8; }
+    for (k, b) in mbuff.iter_mut().enumerate() { *b = (w.load_data >> (8 * (k % 8))) as u8; }
+    let want0 = spec_step(&pre, w.insn, &lay, &o0);
+    let load_data = match want0.access {
+        SAccess::Load { addr, width } if want0.kind != SKind::Err && !stack_rel => { let mut v = 0u64; for k in 0..width as u64 { v |= (unsafe { std::ptr::read_volatile((addr + k) as *const u8) } as u64) << (8 * k); } v }
+        SAccess::AtomicAdd { addr, width, .. } if want0.kind != SKind::Err && !stack_rel => { let mut v = 0u64; for k in 0..width as u64 { v |= (unsafe { std::ptr::read_volatile((addr + k) as *const u8) } as u64) << (8 * k); } v }
+        _ => 0,
+    };
+    let want = spec_step(&pre, w.insn, &lay, &SOracle { load_data, ..o0 });
+    say(if want.kind == SKind::Err { "EXPECT-ERR" } else { "EXPECT-OK" });
+    say("RUN tag");
+    let tag = match run_compiled(w.engine, &b0.prog, &mut mem, &mut mbuff, w.load_data) { Ok(v) => v, Err(e) => {
+        return if want.kind == SKind::Err { format!("NOT-REPRODUCED the real {:?} engine reports an error where the ISA prescribes one ({})", w.engine, e) }
+               else { format!("REPRODUCED at pc {}: the ISA prescribes normal continuation, the real {:?} engine failed: {} [{}]", b0.p, w.engine, e, show(w)) } } };
+    if want.kind == SKind::Err {
+        return format!("REPRODUCED at pc {}: the ISA prescribes an error (an access outside the regions), the real {:?} engine carried on (landing tag {}) [{}]", b0.p, w.engine, tag, show(w));
+    }
+    if let SKind::Exit(_) = want.kind { return "NOT-REPLAYABLE exit".into(); }
+    let landed = if tag == 1 { b0.f } else if tag == 2 { b0.t.unwrap_or(b0.f) } else { usize::MAX };
+    if landed != want.post.pc {
+        return format!("REPRODUCED at pc {}: next pc: prescribed {}, real {} (tag {}) [{}]", b0.p, want.post.pc, landed, tag, show(w));
+    }
+    // memory effect of a store / atomic add, read back from the real buffer after the tag run
+    match want.access {
+        SAccess::Store { addr, width, val } | SAccess::AtomicAdd { addr, width, val } if !stack_rel => {
+            let mut v = 0u64;
+            for k in 0..width as u64 { v |= (unsafe { std::ptr::read_volatile((addr + k) as *const u8) } as u64) << (8 * k); }
+            let expect = match want.access { SAccess::AtomicAdd { .. } => load_data.wrapping_add(val) & if width == 8 { u64::MAX } else { 0xffff_ffff }, _ => val };
+            if v != expect { return format!("REPRODUCED at pc {}: memory at {:#x} (width {}): prescribed {:#x}, real {:#x} [{}]", b0.p, addr, width, expect, v, show(w)); }
+        }
+        _ => {}
+    }
+    for k in 0..10u8 {
+        say(&format!("RUN r{}", k));
+        let bk = match mk(Obs::Reg(k)) { Ok(b) => b, Err(e) => return format!("NOT-REPLAYABLE {}", e) };
+        match run_compiled(w.engine, &bk.prog, &mut mem, &mut mbuff, w.load_data) {
+            Ok(v) => if v != want.post.reg[k as usize] { return format!("REPRODUCED at pc {}: r{}: prescribed {:#x}, real {:#x} [{}]", b0.p, k, want.post.reg[k as usize], v, show(w)); },
+            Err(e) => return format!("REPRODUCED at pc {}: the real {:?} engine failed on a re-run: {} [{}]", b0.p, w.engine, e, show(w)),
+        }
+    }
+    format!("NOT-REPRODUCED at pc {}: the real {:?} engine agrees with the ISA on the re-based witness", b0.p, w.engine)
+}
+
+fn show(w: &Wit) -> String { format!("insn opc={:#04x} dst={} src={} off={} imm={}", w.insn.opc, w.insn.dst, w.insn.src, w.insn.off, w.insn.imm) }
+
 pub fn from_json(s: &str) -> Result<Wit, String> {
     let j = json::parse(s).map_err(|e| e.to_string())?;
     let u = |v: &json::JsonValue| -> u64 { v.as_str().map(|x| x.parse::<u64>().unwrap_or(0)).or(v.as_u64()).unwrap_or(0) };
@@ -228,6 +352,7 @@ pub fn from_json(s: &str) -> Result<Wit, String> {
     let mut reg = [0u64; 11];
     for k in 0..11 { reg[k] = u(&j["reg"][k]); }
     Ok(Wit {
+        engine: match j["engine"].as_str() { Some("jit") => Engine::Jit, Some("cranelift") => Engine::Clif, _ => Engine::Interp },
         insn: SInsn { opc: u(&i["opc"]) as u8, dst: u(&i["dst"]) as u8, src: u(&i["src"]) as u8, off: i["off"].as_i64().unwrap_or(0) as i16, imm: i["imm"].as_i64().unwrap_or(0) as i32 },
         next_imm: j["next_imm"].as_i64().unwrap_or(0) as i32,
         reg, pc: u(&j["pc"]) as usize, n: u(&j["n"]) as usize, depth: u(&j["depth"]) as usize,
